@@ -634,6 +634,20 @@ class Interp:
             return obj.theory.setattr(self, st, obj, name, value, node)
         raise Unsupported("attribute store on %r" % type(obj).__name__)
 
+    def auto_inline_ok(self, st, qual):
+        """a call to a PRIVATE function of the library that no contract covers (typically a helper extracted by a refactoring)
+        is inlined, a few levels deep and never recursively, instead of leaving the unit undecided; recorded in the evidence"""
+        name = qual.split("::")[0].rsplit(".", 1)[-1]
+        if not (qual.startswith("periodictable.") and name.startswith("_") and not name.startswith("__")):
+            return False
+        if self.options.get("auto_inline", True) is False or st.depth >= 4:
+            return False
+        stack = st.ghost.setdefault("auto_inline_stack", [])
+        if qual in stack:
+            return False
+        self.assumed.add("private helper %s has no contract of its own: inlined into its caller" % qual)
+        return True
+
     def call_property(self, st, obj, info, name):
         qual = "%s.%s.%s" % (info.modname, info.name, name)
         if qual in self.contracts:
@@ -661,7 +675,7 @@ class Interp:
         qual = "%s.%s.%s" % (info.modname, info.name, name)
         if qual in self.contracts:
             return self.contracts[qual](self, st, [obj] + list(args), kwargs)
-        if qual in self.inline or "*" in self.inline:
+        if qual in self.inline or "*" in self.inline or self.auto_inline_ok(st, qual):
             ext = extract.extract(qual)
             return self.call_function(st, VFunc(ext, [], qualname=qual), [obj] + list(args), kwargs)
         raise Unsupported("method %s has neither contract nor inline permission" % qual)
@@ -693,7 +707,7 @@ class Interp:
         if isinstance(fn, VFunc):
             if fn.qualname in self.contracts and not getattr(fn, "force_inline", False):
                 return self.contracts[fn.qualname](self, st, args, kwargs)
-            if fn.qualname in self.inline or "*" in self.inline or fn.closure:
+            if fn.qualname in self.inline or "*" in self.inline or fn.closure or self.auto_inline_ok(st, fn.qualname):
                 return self.call_function(st, fn, args, kwargs)
             raise Unsupported("call to %s: no contract and not inlinable" % fn.qualname)
         if isinstance(fn, VClass):
@@ -757,6 +771,8 @@ class Interp:
         st.depth += 1
         if st.depth > self.options["max_depth"]:
             raise Unsupported("inlining depth exceeded at %s" % fn.qualname)
+        _stack = st.ghost.setdefault("auto_inline_stack", [])
+        _stack.append(fn.qualname)
         try:
             modname = ext.mod.modname
             loc = self.bind_args(st, ext, fn.closure, modname, args, kwargs)
@@ -779,6 +795,8 @@ class Interp:
             return VList(frame.yields) if is_gen else None
         finally:
             st.depth -= 1
+            if _stack and _stack[-1] == fn.qualname:
+                _stack.pop()
 
     # ================================================================= expressions
     def eval(self, st, fr, node):
@@ -1015,9 +1033,13 @@ class Interp:
         item = {"items": VTuple([kv, vv]), "keys": kv, "values": vv}[what]
         self.assign_target(st, inner, g.target, item)
         conds = []
-        for c in g.ifs:
-            conds.append(self.as_bool_expr(st, self.eval(st, inner, c)))
-        val = self.eval(st, inner, elt)
+        try:
+            for c in g.ifs:
+                conds.append(self.as_bool_expr(st, self.eval(st, inner, c)))
+            val = self.eval(st, inner, elt)
+        except PyRaise as e:
+            # the generic key is not known to be a key of M: an exception here says nothing about the real iteration
+            raise Unsupported("comprehension element may raise %s at a generic key (line %s)" % (e.exc, g.iter.lineno))
         if st.forks != n_forks:
             raise Unsupported("comprehension element branches on the generic key (line %s)" % g.iter.lineno)
         c = VComp(m, k, val, conds)
